@@ -32,6 +32,7 @@ import (
 	"storj.io/drpc/drpcmanager"
 	"storj.io/drpc/drpcmetadata"
 	"storj.io/drpc/drpcserver"
+	"storj.io/drpc/drpcstream"
 	"storj.io/drpc/drpcwire"
 
 	"verifharness/census"
@@ -687,6 +688,94 @@ func writerAPIToOld(id string, seed uint64) runner.Result {
 	return res
 }
 
+// largeIDs: packets written with the released encoder whose ids sit at the top of the 64-bit range
+// and then move on to the next stream: the released reader accepts them, so must the current one.
+func largeIDs(id string, seed uint64) runner.Result {
+	r := &payload.SplitMix{S: seed}
+	max := ^uint64(0)
+	sid := uint64(1 + r.Intn(1000))
+	if r.Intn(3) == 0 {
+		sid = max - uint64(2+r.Intn(5))
+	}
+	var b []byte
+	var desc []string
+	emit := func(s, m uint64, done bool) {
+		b = oldwire.AppendFrame(b, oldwire.Frame{Data: payload.Make(s, 0, 0, uint32(m), r.Intn(20)), ID: oldwire.ID{Stream: s, Message: m}, Kind: oldwire.KindMessage, Done: done})
+		desc = append(desc, fmt.Sprintf("(s%d,m%d,done=%v)", s, m, done))
+	}
+	for k := 0; k < 1+r.Intn(3); k++ {
+		for _, m := range []uint64{max - 2, max - 1, max}[r.Intn(3):] {
+			if r.Intn(3) == 0 {
+				emit(sid, m, false)
+			}
+			emit(sid, m, true)
+		}
+		sid++
+		for m := uint64(0); m < uint64(1+r.Intn(3)); m++ {
+			emit(sid, m+uint64(r.Intn(2)), true)
+			if r.Intn(2) == 0 {
+				break
+			}
+		}
+	}
+	pn, en := decodeNew(b)
+	po, eo := decodeOld(b)
+	hist := strings.Join(desc, " ")
+	switch {
+	case eo != nil:
+		res := runner.Hold(id, "the released reader rejects it itself: "+hist, false)
+		return res
+	case en != nil:
+		return runner.Violation(id, "old-to-new:large-ids-rejected", hist+"\nthe current reader rejects a stream that v0.0.17 accepts: "+en.Error())
+	}
+	if d := diff(po, pn); d != "" {
+		return runner.Violation(id, "old-to-new:large-ids-differ", hist+"\n"+d)
+	}
+	res := runner.Hold(id, hist, len(pn) > 0)
+	res.Events = int64(len(pn))
+	return res
+}
+
+// largeMessages: messages around and above 1 MiB sent through the current stream layer with its
+// default options: every frame must stay within what the released reader can buffer.
+func largeMessages(id string, seed uint64) runner.Result {
+	r := &payload.SplitMix{S: seed}
+	var buf bytes.Buffer
+	wr := drpcwire.NewWriter(&buf, payload.Pick(r, []int{0, 1024, 1 << 20}))
+	st := drpcstream.NewWithOptions(context.Background(), 1, wr, drpcstream.Options{})
+	sizes := []int{100 << 10, 1<<20 - 64, 1<<20 - 5, 1 << 20, 1<<20 + 1, 3<<20 + 17, 4<<20 - 100}
+	n := sizes[r.Intn(len(sizes))]
+	var want []pk
+	if err := st.RawWrite(drpcwire.KindInvoke, []byte("/large")); err != nil {
+		return runner.Inconcl(id, err.Error())
+	}
+	m := payload.Make(1, 0, 0, 0, n-payload.HeaderLen)
+	if len(m) != n {
+		m = append(m, make([]byte, n-len(m))...)
+	}
+	if err := st.MsgSend(&m, payload.Enc{}); err != nil {
+		return runner.Inconcl(id, err.Error())
+	}
+	st.CloseSend()
+	stream := buf.Bytes()
+	_ = want
+	pn, en := decodeNew(stream)
+	po, eo := decodeOld(stream)
+	hist := fmt.Sprintf("default stream options, one message of %d bytes, %d bytes on the wire", n, len(stream))
+	switch {
+	case en != nil:
+		return runner.Violation(id, "new-to-old:large-message-unreadable-by-current", hist+"\n"+en.Error())
+	case eo != nil:
+		return runner.Violation(id, "new-to-old:large-message-unreadable-by-v0.0.17", hist+"\nthe v0.0.17 reader rejects what the current stream layer emitted with default options: "+eo.Error())
+	}
+	if d := diff(po, noControl(pn)); d != "" {
+		return runner.Violation(id, "new-to-old:large-message-differs", hist+"\n"+d)
+	}
+	res := runner.Hold(id, hist, true)
+	res.Events = int64(len(pn))
+	return res
+}
+
 // metadataCompat: a batch of seeded metadata maps with key/value lengths at the length-prefix
 // boundaries; what the current encoder writes is read back identically by v0.0.17, and what v0.0.17
 // writes is read back identically by the current decoder.
@@ -772,6 +861,10 @@ func gen(tier string, seed uint64) []runner.Scenario {
 		add("interop-new-client", func(id string) runner.Result { return interop(id, payload.Hash(seed, 0x184, uint64(i)), false) })
 		add("control-injection", func(id string) runner.Result { return controlInjection(id, payload.Hash(seed, 0x185, uint64(i))) })
 		add("writer-api-to-old", func(id string) runner.Result { return writerAPIToOld(id, payload.Hash(seed, 0x187, uint64(i))) })
+		add("large-ids-old-to-new", func(id string) runner.Result { return largeIDs(id, payload.Hash(seed, 0x188, uint64(i))) })
+		if i%10 == 0 {
+			add("large-message-new-to-old", func(id string) runner.Result { return largeMessages(id, payload.Hash(seed, 0x189, uint64(i))) })
+		}
 		if i%5 == 0 {
 			add("metadata-compat", func(id string) runner.Result { return metadataCompat(id, payload.Hash(seed, 0x186, uint64(i))) })
 		}
